@@ -47,6 +47,9 @@ def model_desc(typ, style, any_inputs=False):
         elif style == 1:
             m["non-trigger"] = ["m_in", "p_out", "e_out"]
             m["non-persistent"] = ["e_out"]
+        elif style == 3:
+            # neither 'trigger' nor 'non-trigger': no input of a hybrid model triggers by default
+            m["non-persistent"] = ["e_out"]
         else:
             m["trigger"] = ["t_in"]
             m["non-trigger"] = ["m_in", "p_out", "e_out"]
